@@ -372,8 +372,24 @@ def fold_join(it, src):
     return get_fold(it, 'JOIN', member_fn(it, seqv.elem, name)).apply(it, seqv.term)
 
 
+class _IdentityBytesFn(object):
+    """element function of b''.join(xs) over a sequence of bytes values: the element itself"""
+    desc = 'bytes'
+    name = '@identity'
+    rdesc = 'bytes'
+    spec_fn = None
+    key = ('bytes', '@identity')
+
+    def sym(self, it):
+        return lambda t: t
+
+
 def fold_join_seq(it, sv):
-    raise Unsupported('join over a sequence of bytes values')
+    """b''.join(xs) for a symbolic sequence xs of bytes values: the JOIN fold with the identity as
+    element function (JOINB([]) = b'', JOINB([x]) = x, JOINB(a ++ b) = JOINB(a) ++ JOINB(b))"""
+    if sv.elem != 'bytes':
+        raise Unsupported('join over a sequence of %s values' % sv.elem)
+    return get_fold(it, 'JOIN', _IdentityBytesFn()).apply(it, sv.term)
 
 
 def seqmap_to_seq(it, src):
